@@ -34,6 +34,19 @@ func (valdec ptrDecoder) Decode(dec *Decoder, p interface{}, tag byte) {
 		if *ptr != nil {
 			*ptr = nil
 		}
+	case TagRef:
+		o := dec.refer.Read(dec.ReadInt())
+		if o != nil && reflect.TypeOf(o) == valdec.t.Type1() {
+			// a back-reference to a pointer of this very type yields that
+			// pointer, not a copy of what it points to: shared and cyclic
+			// structures keep their shape
+			*ptr = reflect2.PtrOf(o)
+			return
+		}
+		if *ptr == nil {
+			*ptr = valdec.et.UnsafeNew()
+		}
+		dec.convertReference(o, valdec.et.PackEFace(*ptr))
 	default:
 		if *ptr == nil {
 			*ptr = valdec.et.UnsafeNew()
